@@ -32,3 +32,4 @@ func vImplies(a, b bool) bool
 func vIteInt(c bool, a, b int) int
 func vIteByte(c bool, a, b byte) byte
 func vFreeParseFloat(on bool)
+func vLazyFormat(on bool)
